@@ -46,6 +46,7 @@ def run(ck, fb):
     r02p(ck, fb)
     r02q(ck, fb)
     r02r(ck, fb)
+    r02s(ck, fb)
     ck.borrow('rules.c03', {'R03b': 'R02j', 'R03g': 'R02k', 'R03i': 'R02l'}, 'a truncation that leaves wrong cursors / keeps the suffix breaks the reopened log')
 
 
@@ -584,3 +585,26 @@ def r02r(ck, fb, R='R02r'):
                'a pointer remembered before a snapshot install is written after it: replicate 1..=60, compact at 50, install snapshot 100, replicate '
                '101..=160, compact at 150: get_log_entries(0, MAX) starts [50, 100, 101, ...], before and after a reopen',
                'install forgets the remembered pointers' if len(forgets) == 2 else 'guarded by pointer index vs start of the log')
+
+
+def r02s(ck, fb, R='R02s'):
+    ck.rule(R, 'the preallocated length never cuts a record: LogInnerManager::write tracks the length it set_len()s the data file to in `file_len`; '
+               'when a record does not fit, the new length is derived from the length of that record (data_cursor + len, or the old length plus at '
+               'least len). A fixed step smaller than the record leaves file_len inside the record, and the next growth truncates the file there: '
+               'the entry was acknowledged, keeps its length prefix (counts and last index stay right) and no longer decodes after a reopen')
+    w = ck.main(LIM + 'write', R)
+    if not w:
+        return
+    n = 0
+    reg = util.region(fb, w)
+    for x in reg:
+        tl = Taint(x, call_src=lambda t: (t.get('f') or {}).get('d', '') == 'std::vec::Vec::<T, A>::len' or (t.get('f') or {}).get('d', '').endswith('slice::<impl [T]>::len'))
+        for (o, f, bb, st) in x.field_writes():
+            if f != 'file_len' or not o.endswith('LogInnerManager'):
+                continue
+            n += 1
+            ck.require(any(tl.op_tainted(y) for y in rv_operands(st['rv'])), R, 'write:file_len-follows-record-length', x.where(bb),
+                       'the data file is grown to a length that does not depend on the size of the record being written: a record longer than the step '
+                       '(a 3 MiB config against a 1 MiB step) ends beyond file_len, and the set_len of a later write truncates it',
+                       'new length derived from the record length')
+    ck.floor(R, 'assignments of file_len in write()', n, 1)
